@@ -71,7 +71,7 @@ def run(ctx):
     pr = ctx.proof(props=["Molli.Props.C03"], gen=["UkvLayout"])
 
     work = ctx.scratch
-    nsessions = 14 if ctx.quick() else 150
+    nsessions = 14 if ctx.quick() else 50
     corpus = ukvlib.load_corpus("C03")
     sessions = corpus + [gen_session(ctx.rng, ctx.quick()) for _ in range(nsessions)]
 
